@@ -61,9 +61,14 @@ structure Cfg where
       a sibling token terminates, before tokens released in the same step have travelled on. The real engine
       exhibits both orders (tracker notification races with the released token). -/
   eagerSettle : Bool := false
+  /-- specification variant (not a deviation): the property allows an inclusive join to release anywhere between
+      "every activated branch that leads to it has delivered" (`false`, reachability) and "every token of that
+      fork activation has arrived or ended" (`true`, lineage tags) -/
+  lateJoin : Bool := false
 deriving Repr, BEq, DecidableEq
 
-def Cfg.ideal : Cfg := ⟨false, false, false, false, false⟩
+def Cfg.ideal : Cfg := ⟨false, false, false, false, false, false⟩
+def Cfg.idealLate : Cfg := ⟨false, false, false, false, false, true⟩
 
 inductive Obs where
   | req (node : String)
@@ -100,6 +105,8 @@ structure St where
   subFired : List String := []
   /-- start / end nodes already `activated` -/
   activated : List String := []
+  /-- lineage: token ↦ stack of inclusive-fork activation ids it descends from (innermost first) -/
+  tags    : List (Nat × List Nat) := []
   /-- tracker picture: token ↦ node recorded as its origin -/
   origin  : List (Nat × String) := []
   occ     : List (String × Nat) := []
@@ -113,6 +120,13 @@ deriving Repr
 def St.emit (s : St) (o : Obs) : St := { s with obs := s.obs ++ [o] }
 def St.cause (s : St) (c : String) : St := if s.causes.contains c then s else { s with causes := s.causes ++ [c] }
 def St.oos (s : St) (why : String) : St := if s.outOfScope.isSome then s else { s with outOfScope := some why }
+
+def St.tagsOf (s : St) (f : Nat) : List Nat := ((s.tags.find? (·.1 == f)).map (·.2)).getD []
+def St.setTags (s : St) (f : Nat) (ts : List Nat) : St := { s with tags := (s.tags.filter (·.1 != f)) ++ [(f, ts)] }
+/-- forked tokens inherit the lineage of the token that forked them -/
+def St.inherit (s : St) (parent : Nat) (kids : List Nat) : St :=
+  let ts := s.tagsOf parent
+  kids.foldl (fun s k => s.setTags k ts) s
 
 def St.liveIds (s : St) : List Nat :=
   s.pending.map (·.1.fid) ++ (s.pg.flatMap (·.2)) ++ s.parked.map (·.fid) ++ s.subs.map (·.fid)
@@ -166,12 +180,12 @@ def selectFlows (cfg : Cfg) (p : Proc) (s : St) (t : Tok) (fls : List String) (u
         -- D1: the current token stays; every effective flow is forked
         let s := s.cause "first_flow_not_effective"
         let (toks, s) := forkToks p s (e0 :: es)
-        let s := s.recordFlow p t.node (toks.map (·.fid))
+        let s := (s.recordFlow p t.node (toks.map (·.fid))).inherit t.fid (toks.map (·.fid))
         (toks, true, s)
       else
         let me : Tok := { t with node := flowDst p e0 }
         let (toks, s) := forkToks p s es
-        let s := s.recordFlow p t.node (t.fid :: toks.map (·.fid))
+        let s := (s.recordFlow p t.node (t.fid :: toks.map (·.fid))).inherit t.fid (toks.map (·.fid))
         (me :: toks, false, s)
 
 def bumpOcc (s : St) (n : String) : Nat × St :=
@@ -227,6 +241,11 @@ def igRelease (p : Proc) (s : St) (n : Node) (g : IgSt) : List Tok × St :=
   else
     let waiting := g.sync ++ [act]
     let replies := Gateway.distribute waiting.length chosen.length
+    -- lineage: the tokens leaving belong to a new fork activation; the activation that is joined here is popped
+    let tagId := s.nextFid
+    let s := { s with nextFid := s.nextFid + 1 }
+    let base := (s.tagsOf act).drop 1
+    let s := waiting.foldl (fun s f => s.setTags f (tagId :: base)) s
     -- each waiting token gets its slice of `chosen` (unconditional) or completes
     (waiting.zip replies).foldl (fun (acc, s) (f, r) =>
       match r with
@@ -238,7 +257,7 @@ def igRelease (p : Proc) (s : St) (n : Node) (g : IgSt) : List Tok × St :=
         | e0 :: es =>
           let me : Tok := { fid := f, node := flowDst p e0 }
           let (toks, s) := forkToks p s es
-          let s := s.recordFlow p n.id (f :: toks.map (·.fid))
+          let s := (s.recordFlow p n.id (f :: toks.map (·.fid))).inherit f (toks.map (·.fid))
           (acc ++ me :: toks, s)) ([], s)
 
 /-- cohort of a token in the tracker's picture -/
@@ -247,17 +266,33 @@ def cohort (s : St) (f : Nat) : List Nat :=
   | none => []
   | some (_, loc) => s.origin.filter (·.2 == loc) |>.map (·.1)
 
+/-- all live tokens (with where they are) -/
+def St.liveToks (s : St) (work : List Tok) : List Tok :=
+  (s.pending.map (·.1)) ++ s.parked ++ s.subs ++ work ++
+    (s.pg.flatMap (fun q => q.2.map (fun f => ({ fid := f, node := q.1 } : Tok)))) ++
+    (s.ig.flatMap (fun g => g.arrived.map (fun f => ({ fid := f, node := g.gw } : Tok))))
+
+/-- late bound: every live token descending from the fork activation the activating token belongs to has arrived -/
+def lateReady (s : St) (a : Nat) (arrived : List Nat) (work : List Tok) : Bool :=
+  match (s.tagsOf a).head? with
+  | none => true
+  | some tag => (s.liveToks work).all (fun t => !(s.tagsOf t.fid).contains tag || arrived.contains t.fid)
+
 /-- may the inclusive gateway `n` synchronise now? (`trySync`) -/
 def igReady (cfg : Cfg) (p : Proc) (s : St) (n : Node) (g : IgSt) (work : List Tok) : Bool × St :=
   match g.activated with
   | none => (false, s)
   | some a =>
-    let idealReady := !upstreamLive p s n.id work g.arrived
+    let early := !upstreamLive p s n.id work g.arrived
+    let late := lateReady s a g.arrived work
     if cfg.inclCohort then
       let awaiting := cohort s a
       let codeReady := awaiting.all (g.arrived.contains ·)
-      (codeReady, if codeReady != idealReady then s.cause "inclusive_cohort" else s)
-    else (idealReady, s)
+      -- a deviation: released before the earliest allowed point, or still waiting at the latest allowed one
+      let dev := (codeReady && !early) || (!codeReady && late && early)
+      (codeReady, if dev then s.cause "inclusive_cohort" else s)
+    else if cfg.lateJoin then (late && early, s)
+    else (early, s)
 
 /-- Arrival of token `t` at its node: returns tokens that continue to run, and the new state. -/
 def arrive (cfg : Cfg) (p : Proc) (s : St) (t : Tok) : List Tok × St :=
